@@ -618,6 +618,32 @@ def file_level_loading(ctx: Ctx, base: dict) -> Dict[str, int]:
                     continue
                 with open(os.path.join(out, "lsprotocol", "types.py"), "rb") as f:
                     outputs[(ptag, etag)] = f.read()
+        # the order of several model files is the order on the command line (not the order of their names, sizes or dates):
+        # the document cut in two, the first part in the file whose name sorts last
+        lists = ("requests", "notifications", "structures", "enumerations", "typeAliases")
+        first = {**{k: v for k, v in small.items() if k not in lists}, **{k: small[k][: len(small[k]) // 2] for k in lists}}
+        second = {**{k: v for k, v in small.items() if k not in lists}, **{k: small[k][len(small[k]) // 2:] for k in lists}}
+        second["metaData"] = {"version": "0.0.0-second-file"}
+        pa, pb = os.path.join(d, "zz-first.json"), os.path.join(d, "aa-second.json")
+        for path_, doc_ in ((pa, first), (pb, second)):
+            with open(path_, "w", encoding="utf-8") as f:
+                json.dump(doc_, f)
+        os.utime(pb, (1, 1))   # ... and is the younger file
+        out = os.path.join(d, "out-two-files")
+        env = {k: v for k, v in os.environ.items()}
+        env.update(PYTHONPATH=REPO, PYTHONHASHSEED="0", PYTHONDONTWRITEBYTECODE="1")
+        r = subprocess.run([gen.PY, "-B", "-m", "generator", "--plugin", "python", "--output-dir", out, "--model", pa, pb], cwd=REPO, env=env, capture_output=True, timeout=900)
+        stats["runs"] += 1
+        if r.returncode != 0:
+            ctx.finding(("model-file-not-loaded", "two-files", "default"), "the document cut into two model files does not generate: " + (r.stderr or r.stdout).decode("utf-8", "replace").strip().splitlines()[-1][:200],
+                        {"model_file": "two-files"})
+        else:
+            with open(os.path.join(out, "lsprotocol", "types.py"), "rb") as f:
+                two = f.read()
+            if outputs.get(("escaped", "default")) is not None and two != outputs[("escaped", "default")]:
+                ctx.finding(("model-files-order", "two-files", "default"),
+                            "`--model zz-first.json aa-second.json` gives another types.py than the uncut document: the files were not merged in the order given (first file extended by the second, metaData of the first)",
+                            {"model_file": "two-files"})
         for ptag in list(paths) + ["committed"]:
             ref_key = ("escaped", "default") if ptag != "committed" else ("committed", "default")
             for etag in envs:
